@@ -541,6 +541,7 @@ func c09FormatStrings(c *Ctx, rule string) {
 
 func checkC09Payload(c *Ctx) {
 	c09FormatStrings(c, "R-payload")
+	poolAliasRule(c, "R-frame-owned")
 	// (a) fmt.Fprintf(w, "...data: %s...", payload): payload must come from json.Marshal
 	// (b) functions that write a payload followed by "\n" to an io.Writer param (stdio line writer): payload from json.Marshal
 	for _, fn := range c.P.LibFns {
